@@ -47,10 +47,51 @@ type Variant struct {
 // years relative to the wall clock at which the log's base time is placed
 var shifts = []int64{3, 6, -3, -6}
 
+// long runs of one byte (size-limit probes) travel as r<count>x<hexbyte>
+func encArgs(args [][]byte) string {
+	p := make([]string, len(args))
+	for i, a := range args {
+		p[i] = hx.H(a)
+		if len(a) > 1024 {
+			same := true
+			for _, c := range a {
+				if c != a[0] {
+					same = false
+					break
+				}
+			}
+			if same {
+				p[i] = fmt.Sprintf("r%dx%02x", len(a), a[0])
+			}
+		}
+	}
+	return strings.Join(p, ",")
+}
+
+func decArgs(s string) [][]byte {
+	if s == "" {
+		return nil
+	}
+	parts := strings.Split(s, ",")
+	out := make([][]byte, len(parts))
+	for i, p := range parts {
+		if len(p) > 1 && p[0] == 'r' {
+			var n int
+			var c int
+			if _, err := fmt.Sscanf(p, "r%dx%02x", &n, &c); err == nil {
+				out[i] = []byte(strings.Repeat(string([]byte{byte(c)}), n))
+				continue
+			}
+		}
+		out[i] = hx.UnH(p)
+	}
+	return out
+}
+
 func (l *Log) line() string {
 	p := make([]string, len(l.Reqs))
 	for i, r := range l.Reqs {
-		p[i] = fmt.Sprintf("%c:%d:%s", r.Kind, r.Ts, hx.HL(r.Args))
+		p[i] = fmt.Sprintf("%c:%d:%s", r.Kind, r.Ts, encArgs(r.Args))
 	}
 	return fmt.Sprintf("%s\tLOG\t%s\t%d\t%s", l.ID, l.Policy, len(l.Reqs), strings.Join(p, ";"))
 }
@@ -72,7 +113,7 @@ func parseLog(f []string) (*Log, error) {
 		if err != nil {
 			return nil, err
 		}
-		l.Reqs = append(l.Reqs, Req{Kind: q[0][0], Ts: ts, Args: hx.UnHL(q[2])})
+		l.Reqs = append(l.Reqs, Req{Kind: q[0][0], Ts: ts, Args: decArgs(q[2])})
 	}
 	return l, nil
 }
